@@ -229,6 +229,27 @@ func runProperty(repo, verif, prop string, timeoutMs int, thorough bool) *checkR
 		}(i)
 	}
 	wg.Wait()
+	// second pass: obligations left undecided (no answer within the budget while every function of the property was
+	// competing for the cores) are tried again, one function at a time, with three times the budget. A refutation
+	// ("sat") is final; only "unknown"/"timeout" get the second chance.
+	for i := range ts {
+		if results[i].Err != "" || vcs[i] == nil {
+			continue
+		}
+		open := 0
+		for _, o := range vcs[i].obls {
+			if !o.Cover && o.Status != "unsat" && o.Status != "sat" {
+				open++
+			}
+		}
+		if open == 0 || open > 12 {
+			continue
+		}
+		vcs[i].retryOnly = true
+		_, secs, _ := eng.discharge(vcs[i], workDir, timeoutMs*3, thorough)
+		results[i].SolveTime += secs
+		results[i].Obls = vcs[i].obls
+	}
 	cr.results = results
 	cr.wall = time.Since(start).Seconds()
 	return cr
@@ -291,7 +312,7 @@ func cmdCheck(repo, verif, prop, tier string, timeoutMs int, verbose bool) int {
 			continue
 		}
 		for _, o := range fr.Obls {
-			if !o.Cover && !hasProp(o.Props, prop) && !hasProp(fr.Props, prop) {
+			if !o.Cover && !hasProp(o.Props, prop) && (o.PropsOnly || !hasProp(fr.Props, prop)) {
 				continue
 			}
 			if o.Cover {
@@ -419,7 +440,7 @@ func writeEvidence(verif, prop, tier string, seed int, cr *checkRun, knownHit []
 				}
 				continue
 			}
-			if !hasProp(o.Props, prop) && !hasProp(fr.Props, prop) {
+			if !hasProp(o.Props, prop) && (o.PropsOnly || !hasProp(fr.Props, prop)) {
 				continue
 			}
 			n++
@@ -546,7 +567,7 @@ func cmdBaseline(repo, verif, prop string, all bool, timeoutMs int) int {
 				continue
 			}
 			for _, o := range fr.Obls {
-				if o.Cover || (!hasProp(o.Props, p) && !hasProp(fr.Props, p)) {
+				if o.Cover || (!hasProp(o.Props, p) && (o.PropsOnly || !hasProp(fr.Props, p))) {
 					continue
 				}
 				if o.ok() {
